@@ -42,7 +42,7 @@ InSet(rule, lo, hi, m) ==
     [] rule = "noeq" -> m # lo
 
 ClassOf(kind) ==
-  CASE kind \in {"string", "string_delim"} -> "string"
+  CASE kind \in {"string", "string_delim", "string_rep"} -> "string"
     [] kind \in {"int8", "int16", "int32", "int64", "int"} -> "int"
     [] kind \in {"uint8", "uint16", "uint32", "uint64", "uint"} -> "uint"
     [] kind \in {"float32", "float64"} -> "float"
@@ -55,7 +55,8 @@ ClassOf(kind) ==
 Measure2(kind, v) ==                \* twice the documented measure
   LET c == ClassOf(kind) IN
   IF v.far # 0 THEN v.far * FAR
-  ELSE CASE c = "string" -> 2 * Len(v.cps)          \* characters (runes), not bytes
+  ELSE CASE kind = "string_rep" -> 2 * v.n          \* a long string: n characters (the pattern cps repeated)
+         [] c = "string" -> 2 * Len(v.cps)          \* characters (runes), not bytes
          [] c = "float"  -> v.n                     \* n counts halves
          [] OTHER        -> 2 * v.n                 \* numeric value / slice length
 Measure(kind, v) == 2 * Measure2(kind, v) + v.eps   \* four times the measure, plus the infinitesimal
